@@ -271,10 +271,16 @@ class TcpConnection():
                 self.sock.send(b"")
                 return True
 
+            except BlockingIOError:
+                #: The connection attempt is still in progress.
+                continue
+
             except OSError as e:
-                if e.args[0] == 10057:
-                    self.connection_attempts -= self.connection_attempts
-                    return False
+                #: The connection attempt has failed: WSAENOTCONN (10057) on
+                #: Windows platform, ECONNREFUSED, ETIMEDOUT, EPIPE and so on
+                #: elsewhere.
+                self.connection_attempts -= self.connection_attempts
+                return False
 
 
 
